@@ -63,6 +63,19 @@ def last_writer(result, vals):
         result[0] = vals[i]
 
 
+@numba.jit(nopython=True, parallel=True)
+def blocked_by_thread_count(result, vals):
+    nb = numba.get_num_threads()
+    partial = np.zeros(nb)
+    for b in numba.prange(nb):
+        acc = 0.0
+        for j in range(b, len(vals), nb):
+            acc += vals[j]
+        partial[b] = acc
+    for b in range(nb):
+        result[0] += partial[b]
+
+
 def run(kernel, args, cfg=None):
     out = Outcome()
     cfg = dict(cfg or {})
@@ -125,6 +138,12 @@ def main():
         bad += expect("reduction refused", False)
     except TransformError:
         bad += expect("reduction refused", True)
+    # a kernel whose summation order depends on numba.get_num_threads()
+    res = np.zeros(1)
+    vals = 1.0 / (np.arange(40.0) + 3.0)
+    out = run(blocked_by_thread_count, (res, vals))
+    bad += expect("thread-count dependent blocking: violation found", any(v["kind"] == "thread_count_changes_result" for v in out.violations))
+    bad += expect("thread-count dependent blocking: single-thread result committed", res[0] == np.add.reduce(vals[:1]) + sum(vals[1:]) or abs(res[0] - vals.sum()) < 1e-12)
     # determinism of the schedule search itself
     d = []
     for _ in range(2):
